@@ -67,32 +67,64 @@ pub fn pick_engine(raw: u8) -> Eng {
     es[(raw as usize * es.len()) >> 8]
 }
 
+thread_local! {
+    static FLIP: std::cell::Cell<u32> = const { std::cell::Cell::new(0) };
+}
+
+/// alternates per thread: both public ways of constructing an engine (new / Default) get used
+fn flip() -> bool {
+    FLIP.with(|f| {
+        f.set(f.get().wrapping_add(1));
+        f.get() % 2 == 0
+    })
+}
+
 pub trait Mk: Engine + Sized {
     fn mk() -> Self;
 }
 impl Mk for Naive {
     fn mk() -> Self {
-        Naive::new()
+        if flip() {
+            Naive::new()
+        } else {
+            <Naive as Default>::default()
+        }
     }
 }
 impl Mk for NoSimd {
     fn mk() -> Self {
-        NoSimd::new()
+        if flip() {
+            NoSimd::new()
+        } else {
+            <NoSimd as Default>::default()
+        }
     }
 }
 impl Mk for Ssse3 {
     fn mk() -> Self {
-        Ssse3::new()
+        if flip() {
+            Ssse3::new()
+        } else {
+            <Ssse3 as Default>::default()
+        }
     }
 }
 impl Mk for Avx2 {
     fn mk() -> Self {
-        Avx2::new()
+        if flip() {
+            Avx2::new()
+        } else {
+            <Avx2 as Default>::default()
+        }
     }
 }
 impl Mk for DefaultEngine {
     fn mk() -> Self {
-        DefaultEngine::new()
+        if flip() {
+            DefaultEngine::new()
+        } else {
+            <DefaultEngine as Default>::default()
+        }
     }
 }
 #[cfg(feature = "neon")]
@@ -469,9 +501,33 @@ pub fn encode_all(
     encode_on(&mut *enc, data)
 }
 
+/// a copy of `shard` that starts `off` bytes past an aligned address (input shards may live anywhere)
+pub struct Shifted {
+    buf: Vec<u8>,
+    start: usize,
+    len: usize,
+}
+
+impl Shifted {
+    pub fn new(shard: &[u8], off: usize) -> Shifted {
+        let mut buf = vec![0u8; shard.len() + 128];
+        let start = (64 - buf.as_ptr() as usize % 64) % 64 + off % 64;
+        buf[start..start + shard.len()].copy_from_slice(shard);
+        Shifted { buf, start, len: shard.len() }
+    }
+    pub fn get(&self) -> &[u8] {
+        &self.buf[self.start..self.start + self.len]
+    }
+}
+
 pub fn encode_on(enc: &mut dyn DynEnc, data: &[Vec<u8>]) -> Result<Vec<Vec<u8>>, Error> {
-    for d in data {
-        enc.add(d)?;
+    for (i, d) in data.iter().enumerate() {
+        // every third shard is handed over from an odd address
+        if i % 3 == 1 {
+            enc.add(Shifted::new(d, 1 + i % 63).get())?;
+        } else {
+            enc.add(d)?;
+        }
     }
     let mut out = Vec::new();
     enc.encode_with(&mut |res| out = enc_snapshot(res))?;
@@ -491,11 +547,19 @@ pub fn decode_on(
     data: &[Vec<u8>],
     recovery: &[Vec<u8>],
 ) -> Result<BTreeMap<usize, Vec<u8>>, Error> {
-    for g in given {
-        if g.rec {
-            dec.add_recovery(g.idx, &recovery[g.idx])?;
+    for (n, g) in given.iter().enumerate() {
+        let shard: &[u8] = if g.rec { &recovery[g.idx] } else { &data[g.idx] };
+        let shifted;
+        let shard = if n % 3 == 2 {
+            shifted = Shifted::new(shard, 1 + (n * 7) % 63);
+            shifted.get()
         } else {
-            dec.add_original(g.idx, &data[g.idx])?;
+            shard
+        };
+        if g.rec {
+            dec.add_recovery(g.idx, shard)?;
+        } else {
+            dec.add_original(g.idx, shard)?;
         }
     }
     let mut out = BTreeMap::new();
